@@ -74,7 +74,8 @@ func (p *PreprocReader) Scan() bool {
 	}
 
 	for p.scanner.Scan() {
-		line := p.scanner.Bytes()
+		// the compilers skip leading spaces (see parse() in parser.go)
+		line := bytes.TrimLeft(p.scanner.Bytes(), " ")
 		if isIgnored(line) {
 			continue
 		}
